@@ -388,7 +388,7 @@ def shard(ctx):
         for k, v in swept.items():
             ctx.sum('sweep_shapes[%s]' % k, v)
     # ---- random larger trees --------------------------------------------------
-    total = ctx.pick(1500, 150000)
+    total = ctx.pick(1500, 60000)
     for i in ctx.indices(total):
         rng = ctx.rng('rand', i)
         n = rng.choice([3, 5, 8, 12, 20, 30, 40]) if rng.random() < 0.5 \
